@@ -3,9 +3,9 @@ import hashlib, json, os, shutil, subprocess, sys, time, pickle
 
 VERIF = os.path.dirname(os.path.dirname(os.path.abspath(__file__)))
 REPO = os.environ.get('VERIF_REPO', '/repo')
-CACHE = os.path.join(VERIF, '.cache')
+CACHE = os.environ.get('VERIF_CACHE') or os.path.join(VERIF, '.cache')
 DRIVER_DIR = os.path.join(VERIF, 'smir-driver')
-DRIVER_BIN = os.path.join(CACHE, 'driver-target', 'release', 'smir_driver')
+DRIVER_BIN = os.path.join(VERIF, '.cache', 'driver-target', 'release', 'smir_driver')
 ENV_OFF = {'CARGO_NET_OFFLINE': 'true'}
 
 
@@ -21,7 +21,7 @@ def nightly_sysroot():
 def build_driver():
     os.makedirs(CACHE, exist_ok=True)
     r = sh(['cargo', '+nightly', 'build', '--release'], cwd=DRIVER_DIR,
-           env={'CARGO_TARGET_DIR': os.path.join(CACHE, 'driver-target')})
+           env={'CARGO_TARGET_DIR': os.path.join(VERIF, '.cache', 'driver-target')})
     if r.returncode != 0:
         sys.stderr.write(r.stdout); raise SystemExit(2)
     return DRIVER_BIN
